@@ -86,6 +86,14 @@ def commands():
         for m in ["l", "w", "e", "$", "j", "iw"]:
             for op in ["d", "y", "cZ<esc>", "~", "U", "u", "J"]:
                 out.append((f"{v}{m} {op[0]}", [v, m, op]))
+    # every operator ends visual mode: the command typed next is a normal-mode command
+    for v in ["v", "V"]:
+        for m in ["l", "e"]:
+            for op in ["d", "y", "~", "U", "u", "g?", "J", ">"]:
+                out.append((f"{v}{m} {op} then x", [v, m, op, "x"]))
+    # counts of two digits, with a zero in them
+    for c in ["10l", "20l", "10h", "d10l", "10x", "20|", "10w", "d10w", "10rZ", "10~", "100l", "c10lZ<esc>", "y10l"]:
+        out.append(("count " + c, [c]))
     return out
 
 
